@@ -854,6 +854,18 @@ static void gen(const char *prop, RunSpec &spec)
 	uint32_t wj = nj ? 10 + (uint32_t)r.below(30) : 0, wt = nt ? 10 + (uint32_t)r.below(w == 9 ? 80 : 30) : 0,
 		 wf = nf ? 10 + (uint32_t)r.below(30) : 0, ws = ns ? 5 + (uint32_t)r.below(25) : 0, wm = 4 + (uint32_t)r.below(8);
 	bool small_durs = r.chance(1, 2);
+	if (w == 8 && nj > 0 && ns > 0 && r.chance(1, 10)) {
+		// a delivery caught between the poll that read it and the turn of its (lower) level: a job that runs in every
+		// iteration raises the signal in one invocation and deletes (or modifies) the handler in the next
+		int64_t j = (int64_t)r.below((uint64_t)nj), t = nj + nt + nf + (int64_t)r.below((uint64_t)ns), n = r.range(1, 4);
+		int64_t si = (int64_t)r.below(2), hp = r.below(2);           // handler at LOW or MED, the job above it
+		p.add(0, K_SIG_ADD, -1, 0, t, hp, si);
+		p.add(0, K_JOB_ADD, -1, 0, j, hp + 1);
+		for (int64_t k = 0; k <= n + 2; k++) p.add(0, K_JOB_ADD, j, k, j, hp + 1);
+		p.add(0, K_RAISE, j, n, 0, si);
+		if (r.chance(1, 3)) p.add(0, K_RAISE, j, n, 0, si);
+		p.add(0, r.chance(3, 4) ? K_SIG_DEL : K_SIG_MOD, j, n + 1 + (int64_t)r.below(2), t, r.below(3), si);
+	}
 	if (theavy) {
 		p.add(0, K_TIMER_ADD, -1, 0, nj + nt - 1, r.below(3), (int64_t)r.range(1000000, 8000000), 1);
 		wt = 150; small_durs = true; if (nops < 20) nops += 20;
